@@ -12,28 +12,28 @@ import (
 )
 
 type ExtHdr struct {
-	Type   uint8 // 0 hop-by-hop, 43 routing, 60 dstopts, 44 fragment, 59 none
-	Len8   uint8 // hdr ext len field (units of 8 bytes, not counting the first 8)
+	Type    uint8  // 0 hop-by-hop, 43 routing, 60 dstopts, 44 fragment, 59 none
+	Len8    uint8  // hdr ext len field (units of 8 bytes, not counting the first 8)
 	FragOff uint16 // for fragment header: offset field (in 8-byte units <<3) | M flag
 }
 
 type Frame struct {
-	L2       bool
-	SrcMac   [6]byte
-	DstMac   [6]byte
-	Src, Dst netip.Addr // same family
-	Proto    uint8      // 6 tcp, 17 udp, 58 icmpv6, else raw
-	Sport    uint16
-	Dport    uint16
+	L2                 bool
+	SrcMac             [6]byte
+	DstMac             [6]byte
+	Src, Dst           netip.Addr // same family
+	Proto              uint8      // 6 tcp, 17 udp, 58 icmpv6, else raw
+	Sport              uint16
+	Dport              uint16
 	Syn, Ack, Fin, Rst bool
-	Dscp     uint8
-	IHL      uint8  // IPv4 header length in words (5..15); 0 = 5
-	FragOff  uint16 // IPv4 fragment offset (13 bits) ; non-zero => non-first fragment
-	MF       bool
-	Ext      []ExtHdr // IPv6 extension chain before the transport header
-	Icmp6Type uint8
-	Payload  int
-	Truncate int // if >0, cut the frame to this many bytes
+	Dscp               uint8
+	IHL                uint8  // IPv4 header length in words (5..15); 0 = 5
+	FragOff            uint16 // IPv4 fragment offset (13 bits) ; non-zero => non-first fragment
+	MF                 bool
+	Ext                []ExtHdr // IPv6 extension chain before the transport header
+	Icmp6Type          uint8
+	Payload            int
+	Truncate           int // if >0, cut the frame to this many bytes
 }
 
 func (f *Frame) V6() bool { return f.Src.Is6() && !f.Src.Is4In6() }
